@@ -75,6 +75,19 @@ def run_rerun(case):
             one["structs"] += f["structs"]
             one["commands"] += f["commands"]
         desc["files"] = [one]
+    if case.get("ties"):
+        # every hashed collection gets ties under its sort key: one command name in two files, one struct name in
+        # two files, one event name emitted with several payload types (in one file and across files)
+        fs = desc["files"]
+        for i, f in enumerate(fs[:2]):
+            f["commands"].append({"name": "same_cmd", "async": False, "rename_all": None,
+                                  "params": [{"name": "shared", "type": "Shared"}], "ret": "String", "channels": []})
+            f["structs"].append({"name": "Shared", "is_enum": False, "rename_all": None, "fields": [
+                {"name": "from_%d" % i, "type": "u32", "public": True, "rename": None, "skip": False, "validator": None}]})
+        fs[0]["events"] += [{"name": "job-status", "payload": "String"}, {"name": "job-status", "payload": "i32"},
+                            {"name": "job-status", "payload": "bool"}]
+        fs[-1]["events"] += [{"name": "job-status", "payload": "Shared"}, {"name": "other", "payload": "String"}]
+    desc["cfg"]["visualize_deps"] = bool(case.get("viz"))
     if case.get("maps"):
         desc["cfg"]["type_mappings"] = {"Alpha%d" % i: ["string", "number", "boolean"][i % 3] for i in range(case["maps"])}
     desc["cfg"]["validation_library"] = case.get("mode", "none")
@@ -88,7 +101,7 @@ def run_rerun(case):
             r = w.run(extra=extra)
             sched = observed_sched(w, r, desc, last_regen)
             rec = w.cache_record()
-            o = {"decision": r["decision"], "rewritten": r["rewritten"], "changed_bytes": r["changed_bytes"],
+            o = {"decision": r["decision"], "rewritten": r["rewritten"], "removed": r["removed"], "changed_bytes": r["changed_bytes"],
                  "sched": sched, "commands_hash": rec and rec["commands_hash"], "config_hash": rec and rec["config_hash"]}
             if r["decision"] == "regenerated" and sched[0] is not None:
                 last_regen = sched
@@ -109,7 +122,8 @@ def eval_rerun(cases):
                 ref = last if last is not None else steps[0][1]
                 q_order.append(sx([ref, steps[k][1], C.sx_project(d), C.sx_cfg(d["cfg"])]))
                 dec = o["decision"] if o["decision"] in ("no_commands", "up_to_date", "regenerated", "failed") else "failed"
-                q_idem.append(sx([dec, len(o["rewritten"])]))
+                # every file of the output directory: touched (mtime/inode), changed bytes, or gone
+                q_idem.append(sx([dec, len(set(o["rewritten"]) | set(o["changed_bytes"]) | set(o["removed"]))]))
                 idx.append((i, k))
             if o["decision"] == "regenerated":
                 last = steps[k][1]
@@ -296,7 +310,7 @@ def run_spelling(case):
             mi, di, _ = C.stale_files(w, desc) if r["decision"] in ("regenerated", "up_to_date") else ([], [], [])
             # graph files print the file paths as spelled: compare them only under the reference spelling
             di = [n for n in di if not (n.startswith("dependency-graph") and psp != "./" + C.SRC)]
-            obs.append({"decision": r["decision"], "rewritten": r["rewritten"], "all_rewritten": all(n in r["rewritten"] for n in expected),
+            obs.append({"decision": r["decision"], "rewritten": r["rewritten"], "removed": r["removed"], "all_rewritten": all(n in r["rewritten"] for n in expected),
                         "missing": mi, "different": di, "args": args, "text": r["text"][-200:]})
             proj = C.sx_project(desc, src=psp)
             projs.append(proj)
@@ -313,7 +327,7 @@ def eval_spelling(cases):
         last = 0
         for k, o in enumerate(obs):
             dec = o["decision"] if o["decision"] in ("no_commands", "up_to_date", "regenerated", "failed") else "failed"
-            q_idem.append(sx([dec, len(o["rewritten"])]))
+            q_idem.append(sx([dec, len(set(o["rewritten"]) | set(o.get("removed", [])))]))
             q_force.append(sx([dec, o["all_rewritten"]]))
             idx.append((i, k))
             if o["decision"] == "regenerated":
@@ -376,6 +390,12 @@ def spelling_cases(tier, rng):
     for a in build:
         for b in build:
             add("build", "none", False, [a, b])
+    for a in build[:4]:
+        for b in build[:4]:
+            for c in build[:2]:
+                add("build", "none", True, [a, b, c])
+    for a in build:
+        for b in build:
             if tier == "thorough":
                 add("build", "zod", True, [a, b])
     # [a; a differently flagged; a]: the unforced third run must touch nothing
@@ -423,6 +443,16 @@ def rerun_cases(tier, rng):
         # single-file projects with 0..1 mappings are outside the class on both paths
         for rep in range(reps):
             cases.append({"entry": entry, "nfiles": 1, "structs": True, "maps": 1, "reruns": k, "rep": rep, "mode": "none"})
+    for entry in ("cli", "build"):
+        for n in (1, 2, 3, 5):
+            for viz in (False, True):
+                for rep in range(reps):
+                    cases.append({"entry": entry, "nfiles": n, "structs": True, "maps": 3 if rep % 2 else 0, "reruns": k,
+                                  "rep": rep, "mode": "zod" if rep % 3 == 0 else "none", "ties": True, "viz": viz})
+        for n in (1, 3):
+            for rep in range(reps):
+                cases.append({"entry": entry, "nfiles": n, "structs": True, "maps": 0, "reruns": k, "rep": rep, "mode": "none",
+                              "viz": True})
     for entry in ("cli", "build"):
         for maps in (2, 3, 4):
             for n in (1, 2, 4):
